@@ -125,6 +125,8 @@ type Var struct {
 	Used    bool
 	Closure *FuncSig // non-nil for variables holding a function literal
 	LoopVar bool
+	// FuncHolder: the variable holds an Fh (or *Fh): a struct with a function-typed field
+	FuncHolder bool
 }
 
 // FuncSig is the signature of a generated function or closure.
